@@ -71,6 +71,8 @@ def gen_case(rng, **opts):
         args.append("--dry-run")
     if rng.random() < opts.get("p_noskipped", 0.3):
         args.append("--no-skipped")
+    if rng.random() < opts.get("p_verbose", 0.12):
+        args.append("--verbose")
     if rng.random() < opts.get("p_names", 0.0):
         names = []
         insts = [i for f in program["features"] for i in iter_scenario_instances(f)]
@@ -79,6 +81,13 @@ def gen_case(rng, **opts):
             names.append(rng.choice([i["name"].split(" ")[0], "S\\d*[02468]$", "O", "@1\\.1", "^F0", i["name"][:4]]))
         cfg["names"] = names or None
         args.extend("--name=%s" % n for n in names)
+    if rng.random() < opts.get("p_user_skip", 0.0):
+        # an environment.py that skips a whole feature / rule from its before-hook (documented runtime skipping)
+        names = []
+        for f in program["features"]:
+            names.append(f["name"])
+            names.extend(it["name"] for it in f["items"] if it["kind"] == "rule")
+        program["user_skip"] = sorted(rng.sample(names, min(len(names), rng.choice([1, 1, 2]))))
     return {"program": program, "args": args, "cfg": cfg}
 
 
@@ -89,6 +98,8 @@ def strip_case(case):
     for f in prog["features"]:
         feats.append({k: v for k, v in f.items() if k != "_text"})
     out = {"program": {"features": feats, "outcomes": prog["outcomes"]}, "args": case["args"], "cfg": case["cfg"]}
+    if prog.get("user_skip"):
+        out["program"]["user_skip"] = prog["user_skip"]
     for k in ("hook_fault", "cleanup_plan", "cafs"):
         if k in case:
             out[k] = case[k]
@@ -222,21 +233,27 @@ def check_container_skipped(mon, case, obs, pred, node, prefix):
 # C03 invariants on live model objects
 # ---------------------------------------------------------------------------
 
-def rollup_checks(kind, st, ks, own_hook_failed, own_cleanup_failed=False, api_skipped=False):
+def rollup_checks(kind, st, ks, own_hook_failed, own_cleanup_failed=False, api_skipped=False, skip_called=False):
     """The C03 invariant as a pure function: yields (monitor, ok) for a container of *kind* with
     status *st* whose ACTUAL children have statuses *ks* (status names)."""
     if own_hook_failed:
         yield "own_hook_error", st == "hook_error"
         return
+    if own_cleanup_failed and (api_skipped or skip_called):
+        return      # both 'error' (assigned for the cleanup failure) and the status re-derived by skip() are admissible
     if own_cleanup_failed:
+        # (a later skip() on an element that already ran re-derives its status from its contents -- that is what C03 states;
+        #  the 'error' assigned for the cleanup failure is not a function of the contents and is not demanded to survive it)
         yield "own_cleanup_error", st == "error"
         return
     if not ks:
         return      # childless: out of scope
-    if api_skipped:
-        # user code called .skip() on this element while it was running (public API): it carries the status the
-        # user asked for ("skip the remaining parts"), the roll-up function is not what decides it
-        yield "api_skipped_is_skipped_or_failed", st in ("skipped", "failed", "error")
+    if api_skipped and not any(k in ERROR_CLASS or k == "failed" for k in ks):
+        # user code called .skip() on this element (public API) and nothing in it failed: it is skipped ("skip the remaining
+        # parts"), or -- when skip() came after everything in it had passed -- still passed.  With a failed / error-class child
+        # the ordinary rules below apply: what was executed keeps the status its contents give it.
+        all_passed = all(k in ("passed", "pending_warn") for k in ks)
+        yield "api_skipped_is_skipped_or_all_passed", st == "skipped" or (st == "passed" and all_passed)
         return
     has_err = any(k in ERROR_CLASS for k in ks)
     has_fail = any(k == "failed" for k in ks)
@@ -295,7 +312,8 @@ def check_rollup_live(mon, lab, obs, case=None, prefix="rollup", cleanup_failed=
             any(k not in ("skipped", "untested") for k in ks)
         if api_skipped:
             mon.count(prefix + ".api_skipped_scenarios")
-        for name, ok in rollup_checks(kind, st, ks, own_hook_failed, c.name in cleanup_failed, api_skipped):
+        for name, ok in rollup_checks(kind, st, ks, own_hook_failed, c.name in cleanup_failed, api_skipped,
+                                      skip_called=bool(getattr(c, "should_skip", False))):
             mon.check(prefix + "." + name, ok, info)
 
     def scen(s):
